@@ -30,10 +30,11 @@ RULE = (
     "construction; non-trivial = every case except zero vectors / zero increments"
 )
 BOUNDS = {
-    "quick": "72 states; 5 vectors x 3 tags; orbit2frame on 24 states x 3 orientations x {fixed, propagated} x 2 dates; dkep2dv: 4 orbits x 245 increments "
+    "quick": "72 states; 5 vectors x 3 tags; orbit2frame on 24 states x 3 orientations x {fixed, propagated} x 2 dates, plus all ordered pairs of "
+    "registrations under ONE frame name (4 orbits x 3 orientations, with / without a registry reset in between: 264 histories); dkep2dv: 4 orbits x 245 increments "
     "(+ 5 positions for pure da); KeplerNum: {euler, rk4, dopri54} x 60 s x 24 steps, 3 date kinds x 3 tags x 4 vectors single impulses, all ordered pairs and "
     "a set of triples of a 6-maneuver alphabet; continuous burns: 5 windows x 3 tags x 3 methods",
-    "thorough": "as quick with steps {15, 60, 120} s, rkf54 added, all ordered triples of the 6-maneuver alphabet, orbit2frame on all 72 states, dkep2dv on 6 orbits",
+    "thorough": "as quick with steps {15, 60, 120} s, rkf54 added, all ordered triples of the 6-maneuver alphabet, orbit2frame on all 72 states and all registration pairs and triples under one name (6 072 histories), dkep2dv on 6 orbits",
 }
 ASSUMPTIONS = [
     "matrix tolerance 64 eps / cos(flight path angle) (conditioning of the normalised cross product)",
@@ -42,6 +43,8 @@ ASSUMPTIONS = [
     "dkep2dv: first order means |realised - requested| <= (K eps + 1e-6) eps with eps = max(|da|/a, sqrt(di^2 + (dOmega sin i)^2)), K = 5 max(1, 1/tan i) "
     "(second-order terms of the spherical triangle scale with 1/tan i); increments not small against the inclination itself are excluded, "
     "plane change applied at the argument of latitude returned by dkep2aol, da at any true anomaly",
+    "re-creating a frame under a name already in use is supported by the library ('Overriding' warning): after every registration the frame registered "
+    "under that name must be the frame of the orbit attached last (origin, axes = its definition triad, lossless round trip)",
     "continuous burns: the reference switches the thrust on the stage dates t + c h exactly like the definition start <= t < stop",
 ]
 NOT_COVERED = (
@@ -232,65 +235,123 @@ def check_state(case, t):
 # part F : orbit2frame
 
 
-def check_frame(case, t):
-    from datetime import timedelta
-    from mc import world
-    from beyond.frames.frames import orbit2frame
+FRAME_NAME = "C17Frame"
+
+
+def _make_ref(sid, moving):
     from beyond.orbits import Orbit, StateVector
 
-    sid, orient, moving = case["state"], case["orient"], case["moving"]
     y = dict(states())[sid]
+    if moving:
+        return Orbit(y, _G["epoch"], "cartesian", "EME2000", "Kepler")
+    return StateVector(y, _G["epoch"], "cartesian", "EME2000")
+
+
+def _register(ref, orient, moving):
+    """Both public entry points: orbit2frame for a fixed state, Orbit.as_frame for a propagated one."""
+    from beyond.frames.frames import orbit2frame
+
+    if moving:
+        return ref.as_frame(FRAME_NAME, orientation=orient)
+    return orbit2frame(FRAME_NAME, ref, orient)
+
+
+def _verify_frame(t, case, sid, orient, moving, ref, suffix=""):
+    """Origin, axes (definition triad of the CURRENT orbit) and round trip of the frame currently registered as FRAME_NAME."""
+    from datetime import timedelta
+    from beyond.orbits import StateVector
+
+    for dt in (0.0, 420.0):
+        date = _G["epoch"] + timedelta(seconds=dt)
+        try:
+            cur = ref.propagate(date) if moving else ref
+            yc = A(cur.copy(form="cartesian"))
+            if not np.all(np.isfinite(yc)):
+                t.exclude("the Kepler propagator returns a non-finite state for this reference orbit (C01/C05's subject)")
+                continue
+            origin = StateVector(yc, date, "cartesian", "EME2000")
+            o_in = A(origin.copy(frame=FRAME_NAME))
+            probe_y = yc + np.array([130.0, -270.0, 55.0, 0.3, -0.2, 0.7])
+            probe = StateVector(probe_y, date, "cartesian", "EME2000")
+            p_in = probe.copy(frame=FRAME_NAME)
+            back = A(p_in.copy(frame="EME2000"))
+            t.trans(4)
+        except LIBERR as e:
+            t.fail(f"orbit2frame/{orient}/convert-raises-{type(e).__name__}{suffix}", "the attached frame converts to and from its parent", dict(case, dt=dt), "state", repr(e)[:200])
+            continue
+        tol_r = 1e-6
+        R = triad(orient, yc)
+        e0 = float(np.linalg.norm(o_in[:3]))
+        e0v = float(np.linalg.norm(o_in[3:]))
+        if not t.margin("F: orbit at the origin of its frame [m] / 1e-6", max(e0, e0v / 1e-3), tol_r):
+            t.fail(f"orbit2frame/{orient}/origin{suffix}", "the frame places its orbit at the origin", dict(case, dt=dt), [0.0] * 6, o_in.tolist())
+        want = R @ (probe_y[:3] - yc[:3])
+        e1 = float(np.linalg.norm(A(p_in)[:3] - want))
+        if not t.margin("F: probe position in the frame vs definition [m] / 1e-6", e1, tol_r):
+            t.fail(f"orbit2frame/{orient}/axes{suffix}", "positions in the attached frame are expressed on the axes of its definition (triad of the attached orbit)", dict(case, dt=dt),
+                   want.tolist(), A(p_in)[:3].tolist(), f"{sid} {orient} moving={moving} dt={dt}{suffix}: {e1:.3e} m")
+        e2 = float(np.linalg.norm(back[:3] - probe_y[:3]))
+        e2v = float(np.linalg.norm(back[3:] - probe_y[3:]))
+        if not t.margin("F: round trip parent -> frame -> parent [m] / 1e-6", max(e2, e2v / 1e-3), tol_r):
+            t.fail(f"orbit2frame/{orient}/round-trip{suffix}", "conversion to and from the parent frame is lossless", dict(case, dt=dt), probe_y.tolist(), back.tolist(),
+                   f"{sid} {orient} moving={moving} dt={dt}{suffix}: |dr|={e2:.3e} |dv|={e2v:.3e}")
+
+
+def check_frame(case, t):
+    from mc import world
+
+    sid, orient, moving = case["state"], case["orient"], case["moving"]
     world.restore(_G["snap"])
     try:
         key = ("F", sid, orient, moving)
         t.ev(key)
         t.state(key)
-        if moving:
-            ref = Orbit(y, _G["epoch"], "cartesian", "EME2000", "Kepler")
-        else:
-            ref = StateVector(y, _G["epoch"], "cartesian", "EME2000")
+        ref = _make_ref(sid, moving)
         try:
-            fr = orbit2frame("C17Frame", ref, orient)
+            _register(ref, orient, moving)
             t.trans()
         except LIBERR as e:
             t.fail(f"orbit2frame/{orient}/raises-{type(e).__name__}", "a frame can be attached to any orbit", case, "frame", repr(e)[:200])
             return
-        for dt in (0.0, 420.0):
-            date = _G["epoch"] + timedelta(seconds=dt)
+        _verify_frame(t, case, sid, orient, moving, ref)
+    finally:
+        world.restore(_G["snap"])
+
+
+# registration histories under ONE frame name: (state, orientation, moving) re-registered with / without a registry reset in between
+FH_STATES = ["r0g0a0", "r2g1a2", "r6g0a1", "r7g2a0"]
+
+
+def fh_alphabet():
+    return [(s, o, (i + j) % 2 == 1) for i, s in enumerate(FH_STATES) for j, o in enumerate(TAGS)]
+
+
+def check_frame_history(case, t):
+    """case["history"] = [[state, orient, moving, restore_before], ...]: the library explicitly supports re-creating a frame under a
+    name already in use ('Overriding' warning); after EVERY registration the frame must be the one of the orbit just attached."""
+    import logging
+    from mc import world
+
+    hist = case["history"]
+    world.restore(_G["snap"])
+    logging.getLogger("beyond.frames.frames").setLevel(logging.ERROR)
+    try:
+        key = ("FH", tuple(tuple(h) for h in hist))
+        t.ev(key)
+        t.state(key)
+        for k, (sid, orient, moving, restore) in enumerate(hist):
+            if restore:
+                world.restore(_G["snap"])
+            ref = _make_ref(sid, moving)
+            suffix = "" if k == 0 else ("/re-registered-name" + ("-after-reset" if restore else ""))
             try:
-                cur = ref.propagate(date) if moving else ref
-                yc = A(cur.copy(form="cartesian"))
-                if not np.all(np.isfinite(yc)):
-                    t.exclude("the Kepler propagator returns a non-finite state for this reference orbit (C01/C05's subject)")
-                    continue
-                origin = StateVector(yc, date, "cartesian", "EME2000")
-                o_in = A(origin.copy(frame="C17Frame"))
-                probe_y = yc + np.array([130.0, -270.0, 55.0, 0.3, -0.2, 0.7])
-                probe = StateVector(probe_y, date, "cartesian", "EME2000")
-                p_in = probe.copy(frame="C17Frame")
-                back = A(p_in.copy(frame="EME2000"))
-                t.trans(4)
+                _register(ref, orient, moving)
+                t.trans()
             except LIBERR as e:
-                t.fail(f"orbit2frame/{orient}/convert-raises-{type(e).__name__}", "the attached frame converts to and from its parent", dict(case, dt=dt), "state", repr(e)[:200])
-                continue
-            scale = float(np.linalg.norm(yc[:3]))
-            tol_r = 1e-6
-            tol_v = 1e-9
-            R = triad(orient, yc)
-            e0 = float(np.linalg.norm(o_in[:3]))
-            e0v = float(np.linalg.norm(o_in[3:]))
-            if not t.margin("F: orbit at the origin of its frame [m] / 1e-6", max(e0, e0v / 1e-3), tol_r):
-                t.fail(f"orbit2frame/{orient}/origin", "the frame places its orbit at the origin", dict(case, dt=dt), [0.0] * 6, o_in.tolist())
-            want = R @ (probe_y[:3] - yc[:3])
-            e1 = float(np.linalg.norm(A(p_in)[:3] - want))
-            if not t.margin("F: probe position in the frame vs definition [m] / 1e-6", e1, tol_r):
-                t.fail(f"orbit2frame/{orient}/axes", "positions in the attached frame are expressed on the axes of its definition", dict(case, dt=dt),
-                       want.tolist(), A(p_in)[:3].tolist(), f"{sid} {orient} moving={moving} dt={dt}: {e1:.3e} m")
-            e2 = float(np.linalg.norm(back[:3] - probe_y[:3]))
-            e2v = float(np.linalg.norm(back[3:] - probe_y[3:]))
-            if not t.margin("F: round trip parent -> frame -> parent [m] / 1e-6", max(e2, e2v / 1e-3), tol_r):
-                t.fail(f"orbit2frame/{orient}/round-trip", "conversion to and from the parent frame is lossless", dict(case, dt=dt), probe_y.tolist(), back.tolist(),
-                       f"{sid} {orient} moving={moving} dt={dt}: |dr|={e2:.3e} |dv|={e2v:.3e}")
+                t.fail(f"orbit2frame/{orient}/raises-{type(e).__name__}{suffix}", "a frame can be re-created under a name already in use", case, "frame", repr(e)[:200])
+                return
+            _verify_frame(t, dict(case, step=k), sid, orient, moving, ref, suffix)
+        t.outcome(("FH", len(hist)))
     finally:
         world.restore(_G["snap"])
 
@@ -642,6 +703,20 @@ def units(tier, seed):
     fc = [dict(part="F", state=s, orient=o, moving=m) for s in fsts for o in TAGS for m in (False, True)]
     for i in range(0, len(fc), 24):
         u.append((cfg, dict(part="F", cases=fc[i : i + 24])))
+    # registration histories under one name: all ordered pairs (quick) / triples (thorough) of the 12-element alphabet with a change at
+    # every step, each later registration with and without a registry reset before it
+    alpha = fh_alphabet()
+    depth = 2 if tier == "quick" else 3
+    hc = []
+    for n in range(2, depth + 1):
+        for combo in itertools.product(alpha, repeat=n):
+            if any(combo[i][:2] == combo[i + 1][:2] for i in range(n - 1)):
+                continue
+            for flags in itertools.product((False, True), repeat=n - 1):
+                hc.append(dict(part="FH", history=[list(c) + [False if i == 0 else flags[i - 1]] for i, c in enumerate(combo)]))
+    per = max(1, len(hc) // (8 if tier == "quick" else 32))
+    for i in range(0, len(hc), per):
+        u.append((cfg, dict(part="FH", cases=hc[i : i + per])))
     for oname in (KQUICK if tier == "quick" else list(KORBITS)):
         kc = [dict(part="K", orbit=oname, da=da, di=di, dO=dO) for da in DA for di in DANG for dO in DANG]
         for i in range(0, len(kc), 62):
@@ -688,6 +763,8 @@ def check_case(case, t):
         check_state(case, t)
     elif part == "F":
         check_frame(case, t)
+    elif part == "FH":
+        check_frame_history(case, t)
     elif part == "K":
         check_dkep(case, t)
     elif part == "N":
